@@ -59,7 +59,7 @@ def model(conf, tier, workdir, workers):
     t0 = time.time()
     r, paths = cfdpmodel.run_model(conf["name"].replace("-", "_"), cfg, faults, conf.get("cmds", []), conf.get("known", []),
                                    workdir, workers=workers, blackouts=conf.get("blackouts", []), injects=conf.get("injects", []),
-                                   timeout=7200)
+                                   kinds=conf.get("kinds", cfdpmodel.ALLKINDS), timeout=7200)
     mviol = []
     for tag, v in tlc.tagged(r.text, ("MVIOL",)):
         mviol.append({"viol": sorted([list(x) for x in v[0]]), "path": [list(x) for x in v[1]]})
@@ -105,11 +105,16 @@ def collect(prop, tier, seed, c, only=None):
     viols = []          # on real traces
     model_unknown = []
     all_scripts = {}
-    for conf in confs:
-        m = model(conf, tier, os.path.join(c.work, "model"), workers)
+    # DRIFT policy (DESIGN.md 2.1): a configuration in which the code left the model is explored again with the
+    # thorough bounds, looking for a real violation the quick bounds are too small to reach
+    queue = [(conf, tier) for conf in confs]
+    escalated = []
+    while queue:
+        conf, ctier = queue.pop(0)
+        m = model(conf, ctier, os.path.join(c.work, "model"), workers)
         states += m["states"]
         trans += m["transitions"]
-        name = m["name"]
+        name = m["name"] + ("+" if ctier != tier else "")
         paths = [tuple(tuple(x) for x in p) for p in m["paths"]]
         scripts = cfdpmodel.scripts_of(name, m["cfg"], paths, m["injects"])
         for s in scripts:
@@ -126,6 +131,10 @@ def collect(prop, tier, seed, c, only=None):
         for d in st["drift"]:
             d["config"] = name
         drifts += st["drift"]
+        if st["drift"] and not mine and ctier == "quick" and conf["faults"][1] > conf["faults"][0] and len(escalated) < 4:
+            escalated.append(conf["name"])
+            queue.append((conf, "thorough"))
+            common.log("%s %s: DRIFT without violation - escalating to the thorough bounds" % (prop, conf["name"]))
         # model violations of THIS property that are not recorded findings
         if any(t[0].startswith(prop + ":") for mv in m.get("mviol", []) for t in mv["viol"]):
             model_unknown.append(name)
@@ -192,6 +201,7 @@ def collect(prop, tier, seed, c, only=None):
         "exhaustive": True,
         "drift_steps": len(drifts),
         "drift": drifts[:20],
+        "escalated_configs": escalated,
         "property_tags": sorted(t for t in TAGS if t.startswith(prop + ":")),
         "level_d": None if not dres else {"fault_plans_from_tlc": rp.distinct, "daemon_scenarios": dres["scenarios"], "transactions_validated": dres["runs"],
                                           "events_validated": dres["events"], "daemon_events": dres["devents"], "drift_steps": len(dres["drift"]),
